@@ -71,7 +71,9 @@ CLAIMED = {
         "composed with the C16 counter): of two files sharing a counter the one with the strictly smaller key is "
         "processed first and receives the strictly smaller number, whatever else is interleaved; sorted_unique (C08Unique.lean): "
         "any list that is ordered by the key and keeps each key class as in the input IS the model's result - so only "
-        "'sorted() is a stable sort' is trusted, not its algorithm. Tied to the real TemplateFileSorter / "
+        "'sorted() is a stable sort' is trusted, not its algorithm; directory mode (C08Dir.lean, depth_order_keeps_sources): when no move "
+        "is deeper than an earlier one, every directory's gathered path still denotes its initial entry when its turn comes "
+        "(and a witness that renaming an ancestor first breaks this). Tied to the real TemplateFileSorter / "
         "PathDepthSorter on hostile names and forced ties with keys computed independently, and to CLI runs in which "
         "%Count() reveals the processing order.",
         "Trusted: Lean kernel; sorted() is a stable sort; eval(repr(v)) == v for the key values (C14); hand-written "
